@@ -8,7 +8,7 @@ from ..core import Clause, Violation, Discard
 from .. import gens
 from ..trace import Trace
 
-RULE = ("Cases: signals of 48..512 samples (tones, AM/FM, noise, walk, levels) x mask frequency source {'zc','if', float, "
+RULE = ("Cases: signals of 48..512 samples (tones, AM/FM, noise, walk, levels; stored as float64, int64, int16 or float32) x mask frequency source {'zc','if', float, "
         "list} x amplitude mode {abs, ratio_sig, ratio_imf} x scalar / array mask_amp (positive, zero and negative, i.e. sign-flipped masks) x mask_step_factor in {1, 1.5, 2, 3, 4} x "
         "nphases 1..8 x nprocesses 1..8 x IMF options. Oracle (executable specification): get_next_imf_mask(x,z,a,P) == "
         "mean over p<P of [get_next_imf(x + a*cos(2pi z t + 2pi p/P)) - a*cos(...)] (1e-12 rel), flag == any member flag; "
@@ -120,6 +120,9 @@ def sift_case(draw):
     elif amp == 'array-signed':
         amp = np.array([1.0, -0.5, 2.0, -1.5, 0.7, 1.0, 1.0, 1.0, 1.0])
     opts = draw(st.sampled_from([None, {'stop_method': 'fixed', 'max_iters': 4}, {'sd_thresh': 0.2}]))
+    # storage of the signal: float64, integers (ADC counts), or - with absolute mask amplitudes only, because a ratio
+    # amplitude is a multiple of X.std(), which numpy evaluates in the storage precision - float32
+    sig['dtype'] = draw(st.sampled_from(['f8', 'f8', 'f8', 'i8', 'i2', 'f4']))
     return {'sig': sig, 'freqs': freqs, 'mode': draw(st.sampled_from(['abs', 'ratio_sig', 'ratio_imf'])), 'amp': amp,
             'step': draw(st.sampled_from([1.5, 2, 2.0, 3, 4.0, 1, 1.0])), 'nphases': draw(st.integers(1, 8)),
             'nproc': draw(st.integers(2, 8)), 'max_imfs': draw(st.integers(1, 6)), 'opts': opts,
@@ -128,7 +131,12 @@ def sift_case(draw):
 
 def oracle_sift(case, rec):
     import emd
-    x = gens.sig_of(case['sig'])
+    sigd = dict(case['sig'])
+    if sigd.get('dtype') == 'f4' and case['mode'] != 'abs':
+        sigd['dtype'] = 'f8'
+    xt = gens.sig_of(sigd)              # as stored (handed to mask_sift)
+    x = xt.astype(float)                # the same values as float64 (the specification works on these)
+    rec.cls('dtype=' + sigd.get('dtype', 'f8'))
     amp = case['amp']
     opts = case['opts']
     kw = dict(mask_amp=amp.copy() if isinstance(amp, np.ndarray) else amp, mask_amp_mode=case['mode'],
@@ -144,8 +152,8 @@ def oracle_sift(case, rec):
     fa = list(freqs) if isinstance(freqs, list) else freqs
     try:
         with Trace() as tr:
-            got_n = np.asarray(emd.sift.mask_sift(x.copy(), mask_freqs=fa, nprocesses=case['nproc'], **kw))
-        got, mf = emd.sift.mask_sift(x.copy(), mask_freqs=list(fa) if isinstance(fa, list) else fa, nprocesses=1,
+            got_n = np.asarray(emd.sift.mask_sift(xt.copy(), mask_freqs=fa, nprocesses=case['nproc'], **kw))
+        got, mf = emd.sift.mask_sift(xt.copy(), mask_freqs=list(fa) if isinstance(fa, list) else fa, nprocesses=1,
                                      ret_mask_freq=True, **kw)
     except emd.support.EMDSiftCovergeError:
         raise Discard('convergence error')
@@ -214,7 +222,7 @@ def oracle_sift(case, rec):
         raise Violation('C07/mask_sift/number-of-imfs', 'got %d expected %d' % (K, stop_expected))
     # returned frequencies reproduce the output when fed back explicitly
     try:
-        again = np.asarray(emd.sift.mask_sift(x.copy(), mask_freqs=list(mf), nprocesses=1, **kw))
+        again = np.asarray(emd.sift.mask_sift(xt.copy(), mask_freqs=list(mf), nprocesses=1, **kw))
     except Exception as e:
         raise Violation('C07/mask_sift/feedback-raises/' + type(e).__name__, repr(e))
     if again.shape != got.shape or np.abs(again - got).max() / scale > 1e-12:
@@ -226,7 +234,7 @@ def oracle_sift(case, rec):
         elif isinstance(r, list):
             r[:] = [128.0 * v for v in r]
     try:
-        got2, mf2 = emd.sift.mask_sift(x.copy(), mask_freqs=list(fa) if isinstance(fa, list) else fa, nprocesses=1,
+        got2, mf2 = emd.sift.mask_sift(xt.copy(), mask_freqs=list(fa) if isinstance(fa, list) else fa, nprocesses=1,
                                        ret_mask_freq=True, **kw)
     except Exception as e:
         raise Violation('C07/mask_sift/repeat-raises/' + type(e).__name__, repr(e))
